@@ -51,7 +51,7 @@ func init() {
 		Technique: "runtime monitor: per-mode rule over real Parse executions (error naming the first unknown / warning on Writer / token kept in remaining) + deletion metamorphism for the surrounding known options",
 		Rule: "case = random tree (wrappers with UnsetOptions, per-command unknown modes) + argv with 1-3 unknown option tokens (long, short, bundled letters, attached values) at every position class, no `--` before them, require-order off; " +
 			"distinct = (modes, item shapes, levels); non-trivial = at least one unknown token is present and at least one known option is used" + genDims,
-		Cases: func(tier string) int { return tierN(tier, 20000, 4000000) },
+		Cases: func(tier string) int { return tierN(tier, 60000, 4000000) },
 		Run: func(seed uint64, idx int, tier string) *fw.Result {
 			r := CaseRng(seed, "C08", idx)
 			pc := DefaultCfg()
